@@ -647,6 +647,55 @@ def c04_reset(ctx):
     ctx.check(bool(it), it[0] if it else call, "_iterating is initialised by _start on every call")
 
 
+    # (d) the sequential path (n_jobs == 1) is a path of its own: an attribute that a method reachable from
+    # _get_sequential_output READS must have been given a value on that path - by __init__, by _reset_run_tracking, by a
+    # store of __call__ that dominates the sequential branch, or by the sequential path itself. Otherwise the read raises
+    # AttributeError; in a `finally` it replaces the task's own exception.
+    seq = F(ctx, "Parallel._get_sequential_output")
+    by_name = {st_.name: st_ for st_ in cls.body if isinstance(st_, ast.FunctionDef)}
+    reach, todo = {}, [seq]
+    while todo:
+        fn_ = todo.pop()
+        if fn_.name in reach:
+            continue
+        reach[fn_.name] = fn_
+        for c_ in calls_in(fn_):
+            nm_ = call_name(c_) or ""
+            if nm_.startswith("self.") and nm_[5:] in by_name and len(reach) < 40:
+                todo.append(by_name[nm_[5:]])
+    def stores_of(fn_):
+        return {n.attr for n in ast.walk(fn_) if isinstance(n, ast.Attribute) and isinstance(n.ctx, ast.Store) and isinstance(n.value, ast.Name) and n.value.id == "self"}
+    always = stores_of(init) | (stores_of(by_name["_reset_run_tracking"]) if "_reset_run_tracking" in by_name else set())
+    class_level = {t.id for st_ in cls.body if isinstance(st_, ast.Assign) for t in st_.targets if isinstance(t, ast.Name)} | set(by_name)
+    props = {st_.name for st_ in cls.body if isinstance(st_, ast.FunctionDef)}
+    seq_stores = set()
+    for fn_ in reach.values():
+        seq_stores |= stores_of(fn_)
+    seq_calls = [c_ for c_ in calls_in(call) if call_name(c_) == "self._get_sequential_output"]
+    dom = set()
+    for n in ast.walk(call):
+        if isinstance(n, ast.Attribute) and isinstance(n.ctx, ast.Store) and isinstance(n.value, ast.Name) and n.value.id == "self" and seq_calls:
+            st_ = n
+            while not isinstance(st_, ast.stmt):
+                st_ = parent(st_)
+            if gcall.every_path_to(gcall.nodes_of(seq_calls[0]), gcall.nodes_of(st_)):
+                dom.add(n.attr)
+    n_reads = 0
+    for fn_ in reach.values():
+        for n in ast.walk(fn_):
+            if isinstance(n, ast.Attribute) and isinstance(n.ctx, ast.Load) and isinstance(n.value, ast.Name) and n.value.id == "self" and not isinstance(parent(n), ast.Call):
+                a = n.attr
+                n_reads += 1
+                if a in always or a in class_level or a in seq_stores or a in dom or a.startswith("__"):
+                    continue
+                # inherited (Logger) attributes and attributes never stored anywhere in the class are not judged
+                stored_somewhere = any(a in stores_of(m_) for m_ in by_name.values())
+                if not stored_somewhere:
+                    continue
+                ctx.bad(n, "%s reads self.%s on the sequential path (n_jobs == 1), where nothing has stored it yet (it is only set on the dispatching path of __call__): AttributeError - "
+                           "raised from the `finally` of _get_sequential_output it replaces the failing task's own exception" % (fn_.name, a),
+                        key=PAR + "::Parallel.%s::reads %s on the sequential path" % (fn_.name, a))
+    ctx.floor(n_reads, 10, "attribute reads on the sequential path")
     # (c) any other attribute of Parallel that the callback class or a dispatch/retrieval method writes during a call
     # (flags, counters, remembered jobs) is per-call state too: some prologue/epilogue function must (re)initialise it,
     # otherwise what one call leaves there is seen by the next call on the same object.
